@@ -15,7 +15,6 @@ mod oracle;
 mod world;
 
 use mc_core::{catch, Args, Run, Tier};
-use rayon::prelude::*;
 use serde::{Deserialize, Serialize};
 use serde_json::{json, Value};
 use std::collections::BTreeMap;
@@ -44,7 +43,8 @@ pub struct Case {
     pub pad: [u8; 2],
     /// 0 = ZIP 317 standard, 1 = fixed non-standard fee.
     pub fee: u8,
-    /// 0 = exact, 1 = one zatoshi short, 2 = one zatoshi over, 3 = over by the fee.
+    /// 0 = exact, 1 = one zatoshi short, 2 = one zatoshi over, 3 = over by the fee,
+    /// 4 = exact for a fee that also counts a required bundle the version cannot carry.
     pub fund: u8,
     /// Memo alphabet base (output k of pool p gets memo kind (base + k + p) mod 3).
     pub memo: u8,
@@ -56,12 +56,19 @@ pub struct Case {
     /// Value alphabet: 0 = ordinary amounts, 1 = the requested inputs sum to MAX_MONEY.
     #[serde(default)]
     pub vals: u8,
+    /// Kind of transparent input 0 / 1: 0 = P2PKH, 1 = P2SH 1-of-1 multisig, 2 = P2SH 2-of-3.
+    #[serde(default)]
+    pub tk: [u8; 2],
 }
+
+/// Padding alphabet in keys: D = DEFAULT, U = UNPADDED (Some(1)), Z = Some(0), T = Some(3);
+/// lower case = the same with `bundle_required`.
+const PAD_CHARS: [char; 8] = ['D', 'U', 'Z', 'T', 'd', 'u', 'z', 't'];
 
 impl Case {
     pub fn key(&self) -> String {
         format!(
-            "h{}/v{}{}/t{}-{}/s{}-{}/o{}-{}{}/i{}-{}/p{}{}/f{}/x{}/m{}/a{}/r{}{}",
+            "h{}/v{}{}/t{}-{}/s{}-{}/o{}-{}{}/i{}-{}/p{}{}/f{}/x{}/m{}/a{}/r{}{}{}",
             self.h,
             self.ver,
             if self.ver == 0 { "" } else if self.ver_when == 0 { "b" } else { "a" },
@@ -74,14 +81,15 @@ impl Case {
             if self.o_kind == 1 { "c" } else { "" },
             self.i[0],
             self.i[1],
-            if self.pad[0] == 0 { 'D' } else { 'U' },
-            if self.pad[1] == 0 { 'D' } else { 'U' },
+            PAD_CHARS[self.pad[0] as usize % 8],
+            PAD_CHARS[self.pad[1] as usize % 8],
             self.fee,
             self.fund,
             self.memo,
             self.anchors,
             self.route,
-            if self.vals == 0 { "" } else { "/max" }
+            if self.vals == 0 { "" } else { "/max" },
+            if self.tk == [0, 0] { String::new() } else { format!("/k{}{}", self.tk[0], self.tk[1]) }
         )
     }
     fn n_in(&self) -> u8 {
@@ -260,7 +268,7 @@ fn shapes(h: u32, max_pools: usize) -> Vec<[[u8; 2]; 4]> {
 }
 
 fn base(h: u32, sh: [[u8; 2]; 4]) -> Case {
-    Case { h, ver: 0, ver_when: 0, t: sh[0], s: sh[1], o: sh[2], i: sh[3], o_kind: 0, pad: [0, 0], fee: 0, fund: 0, memo: 0, anchors: 1, route: 0, vals: 0 }
+    Case { h, ver: 0, ver_when: 0, t: sh[0], s: sh[1], o: sh[2], i: sh[3], o_kind: 0, pad: [0, 0], fee: 0, fund: 0, memo: 0, anchors: 1, route: 0, vals: 0, tk: [0, 0] }
 }
 
 fn routes(c: &Case) -> Vec<u8> {
@@ -463,6 +471,126 @@ fn group_big_values(out: &mut Vec<Case>) {
     }
 }
 
+/// G6: every field combination of `BundlePadding` (bundle_required x pad_to_minimum in
+/// {None, Some(1), Some(0), Some(3)}) for both Orchard-family pools, each pool used (one spend,
+/// one output) / unused but anchored / unused and unanchored (there: DEFAULT and required-DEFAULT
+/// only), on each side of NU6.3, funded transparently (1 in, 1 out) through build_for_pczt, and
+/// through mock_build where the reference model expects no Orchard-family bundle; the
+/// deferred-anchor builder (no anchors to configure) with each pool used / unused. Fee rules
+/// {ZIP 317, fixed} with exact funding, ZIP 317 with -1 / +1. Plus the same required-but-unused
+/// bundles under an explicitly requested version that cannot carry them.
+fn group_padding_fields(out: &mut Vec<Case>, slow: &mut Vec<Case>, tier: Tier) {
+    let variants = |b: &Case, out: &mut Vec<Case>| {
+        out.push(b.clone());
+        out.push(Case { fee: 1, ..b.clone() });
+        if b.n_in() > 0 {
+            out.push(Case { fund: 1, ..b.clone() });
+            out.push(Case { fund: 2, ..b.clone() });
+        }
+    };
+    for h in [NU6_3 - 1, NU6_3] {
+        // (used, anchored) per pool
+        let states = [(true, true), (false, true), (false, false)];
+        for (o_used, o_anch) in states {
+            for (i_used, i_anch) in states {
+                if i_used && h < NU6_3 {
+                    continue; // no Ironwood pool yet: covered by the G3 probes
+                }
+                let anchors = match (o_anch && !o_used, i_anch && !i_used) {
+                    (true, true) => 1,
+                    (true, false) => 2,
+                    (false, true) => 3,
+                    (false, false) => 0,
+                };
+                let pads_of = |anch: bool| -> Vec<u8> { if anch { (0..8).collect() } else { vec![0, 4] } };
+                for po in pads_of(o_anch) {
+                    for pi in pads_of(i_anch) {
+                        let sh = [[1, 1], [0, 0], if o_used { [1, 1] } else { [0, 0] }, if i_used { [1, 1] } else { [0, 0] }];
+                        let b = Case { pad: [po, pi], anchors, o_kind: u8::from(o_used && h >= NU6_3), route: 1, ..base(h, sh) };
+                        variants(&b, out);
+                        let (_, _, orc, iron) = world::predicted_shape(&b);
+                        if orc + iron == 0 {
+                            variants(&Case { route: 0, ..b.clone() }, out);
+                        }
+                    }
+                }
+            }
+        }
+    }
+    // deferred-anchor builder
+    for o_used in [true, false] {
+        for i_used in [true, false] {
+            for po in 0..8u8 {
+                for pi in 0..8u8 {
+                    let sh = [[0, 0], [0, 0], if o_used { [1, 1] } else { [0, 0] }, if i_used { [1, 1] } else { [0, 0] }];
+                    variants(&Case { pad: [po, pi], o_kind: u8::from(o_used), route: 2, ..base(NU6_3, sh) }, out);
+                }
+            }
+        }
+    }
+    // a required but unused bundle together with a requested version that cannot carry it
+    for (ver, pad, anchors) in [(4u8, [4u8, 0u8], 2u8), (4, [0, 4], 3), (5, [0, 4], 3), (5, [4, 0], 2), (4, [5, 5], 1), (5, [6, 6], 1)] {
+        for ver_when in [0u8, 1] {
+            for route in [1u8, 0] {
+                let b = Case { ver, ver_when, pad, anchors, route, ..base(NU6_3, [[1, 1], [0, 0], [0, 0], [0, 0]]) };
+                let (_, _, orc, iron) = world::predicted_shape(&b);
+                // route 0 with an expected Orchard bundle needs a real proof
+                if route == 0 && orc + iron > 0 {
+                    slow.push(b);
+                } else {
+                    variants(&b, out);
+                    // funded exactly for a fee that counts the bundle the version cannot carry
+                    out.push(Case { fund: 4, ..b.clone() });
+                }
+            }
+        }
+    }
+    // required bundles through `build` (mock Sapling provers, real Orchard-family proofs)
+    let t11 = [[1u8, 1], [0, 0], [0, 0], [0, 0]];
+    slow.push(Case { pad: [0, 4], anchors: 3, route: 0, ..base(NU6_3, t11) });
+    slow.push(Case { pad: [4, 0], anchors: 2, route: 0, ..base(NU6_3, t11) });
+    if tier == Tier::Thorough {
+        slow.push(Case { pad: [5, 6], anchors: 1, route: 0, ..base(NU6_3, t11) });
+        slow.push(Case { pad: [7, 0], anchors: 2, route: 0, fee: 1, ..base(NU6_3, t11) });
+        slow.push(Case { pad: [4, 0], anchors: 2, route: 0, ..base(NU6_3 - 1, t11) });
+        slow.push(Case { pad: [6, 4], anchors: 1, route: 0, ..base(NU6_3 - 1, t11) });
+        slow.push(Case { pad: [4, 4], anchors: 0, route: 0, o_kind: 1, ..base(NU6_3, [[1, 1], [0, 0], [1, 1], [1, 1]]) });
+    }
+}
+
+/// G7: transparent input kinds {P2PKH, P2SH 1-of-1 multisig, P2SH 2-of-3 multisig} in input
+/// positions 0 and 1 (one or two inputs, every combination), 0..2 transparent outputs, with and
+/// without a Sapling output, at Canopy (v4 signature hash), NU5 (v5) and NU6.3 (v6), through
+/// mock_build/build and build_for_pczt, both fee rules, funding exact / -1 / +1, and with the
+/// older versions requested explicitly where they are valid.
+fn group_transparent_kinds(out: &mut Vec<Case>) {
+    for h in [CANOPY, NU5, NU6_3] {
+        for n_in in [1u8, 2] {
+            for k0 in 0..3u8 {
+                for k1 in 0..(if n_in == 2 { 3u8 } else { 1 }) {
+                    for t_out in 0..=2u8 {
+                        for s in [[0u8, 0], [0, 1]] {
+                            let b0 = Case { tk: [k0, k1], anchors: 0, ..base(h, [[n_in, t_out], s, [0, 0], [0, 0]]) };
+                            for route in [0u8, 1] {
+                                let b = Case { route, ..b0.clone() };
+                                out.push(b.clone());
+                                out.push(Case { fee: 1, ..b.clone() });
+                                out.push(Case { fund: 1, ..b.clone() });
+                                out.push(Case { fund: 2, ..b.clone() });
+                            }
+                            for ver in [4u8, 5] {
+                                if ver < oracle::default_version(h) && oracle::version_valid(ver, h) {
+                                    out.push(Case { ver, ver_when: 1, ..b0.clone() });
+                                }
+                            }
+                        }
+                    }
+                }
+            }
+        }
+    }
+}
+
 /// G4 (thorough): a handful of shapes through `build` with real Sapling and Orchard proofs.
 fn group_real_proofs(out: &mut Vec<Case>) {
     let mk = |h: u32, sh: [[u8; 2]; 4], o_kind: u8, pad: [u8; 2], fee: u8| Case { route: 3, o_kind, pad, fee, memo: 1, ..base(h, sh) };
@@ -486,6 +614,14 @@ fn stages(tier: Tier) -> Vec<(String, Vec<Case>)> {
     group_big_values(&mut v);
     st.push(("G5 amounts up to MAX_MONEY".to_string(), dedup(v)));
     let mut v = Vec::new();
+    group_transparent_kinds(&mut v);
+    st.push(("G7 transparent input kinds".to_string(), dedup(v)));
+    let mut v = Vec::new();
+    let mut slow = Vec::new();
+    group_padding_fields(&mut v, &mut slow, tier);
+    st.push(("G6 BundlePadding fields".to_string(), dedup(v)));
+    st.insert(0, ("SLOW G6 required bundles through build (real Orchard-family proofs)".to_string(), dedup(slow)));
+    let mut v = Vec::new();
     group_versions(tier, &mut v);
     st.push(("G2 versions".to_string(), dedup(v)));
     let mut v = Vec::new();
@@ -501,9 +637,28 @@ fn stages(tier: Tier) -> Vec<(String, Vec<Case>)> {
         let mut v = Vec::new();
         group_real_proofs(&mut v);
         // first: the proving keys take long to build, start them early (own stage, own threads)
-        st.insert(0, ("G4 real proofs".to_string(), dedup(v)));
+        st.insert(0, ("SLOW G4 real proofs".to_string(), dedup(v)));
     }
     st
+}
+
+/// Run `f` on every item from `threads` plain OS threads (dynamic scheduling, item order).
+fn par_for_each<T: Sync>(items: &[T], threads: usize, f: impl Fn(&T) + Sync) {
+    let next = std::sync::atomic::AtomicUsize::new(0);
+    std::thread::scope(|s| {
+        for _ in 0..threads.min(items.len()).max(1) {
+            std::thread::Builder::new()
+                .stack_size(16 << 20)
+                .spawn_scoped(s, || loop {
+                    let i = next.fetch_add(1, Ordering::Relaxed);
+                    if i >= items.len() {
+                        break;
+                    }
+                    f(&items[i]);
+                })
+                .expect("spawn worker");
+        }
+    });
 }
 
 pub fn run(args: &Args) -> i32 {
@@ -582,23 +737,24 @@ pub fn run(args: &Args) -> i32 {
     };
     // The real-proof stage runs on a plain thread next to the others: the Sapling prover
     // (bellman) refuses to run inside a rayon pool.
-    let real: Vec<Case> = stages.iter().filter(|(n, _)| n.starts_with("G4")).flat_map(|(_, v)| v.iter().cloned()).collect();
-    // while real proofs are being made, leave a quarter of the cores to the provers' own pools
+    let real: Vec<Case> = stages.iter().filter(|(n, _)| n.starts_with("SLOW")).flat_map(|(_, v)| v.iter().cloned()).collect();
+    // Cases run on plain worker threads, not inside a rayon pool: the provers use rayon (and a
+    // process-wide lazily built proving key) themselves, and a pool thread that waits for the key
+    // while stealing another case that needs the same key would deadlock.
     let n_threads = std::thread::available_parallelism().map_or(8, |n| n.get());
-    let pool = rayon::ThreadPoolBuilder::new().num_threads(if real.is_empty() { n_threads } else { (n_threads * 3 / 4).max(1) }).build().expect("thread pool");
     let real_skipped = AtomicU64::new(0);
     let real_wall = Mutex::new(0.0f64);
     std::thread::scope(|sc| {
-        let h = sc.spawn(|| {
+        let h = std::thread::Builder::new().stack_size(16 << 20).spawn_scoped(sc, || {
             for c in &real {
                 process(c, &real_skipped);
             }
             *real_wall.lock().unwrap() = run.elapsed();
-        });
-        for (name, cases) in stages.iter().filter(|(n, _)| !n.starts_with("G4")) {
+        }).expect("spawn real-proof thread");
+        for (name, cases) in stages.iter().filter(|(n, _)| !n.starts_with("SLOW")) {
             let skipped = AtomicU64::new(0);
             let t0 = run.elapsed();
-            pool.install(|| cases.par_iter().for_each(|c| process(c, &skipped)));
+            par_for_each(cases, n_threads, |c| process(c, &skipped));
             let sk = skipped.load(Ordering::Relaxed);
             stage_report.push(json!({"stage": name, "cases": cases.len(), "not_executed": sk, "wall_s": run.elapsed() - t0}));
             if sk > 0 {
@@ -610,7 +766,7 @@ pub fn run(args: &Args) -> i32 {
     });
     if !real.is_empty() {
         let sk = real_skipped.load(Ordering::Relaxed);
-        stage_report.push(json!({"stage": "G4 real proofs (own thread, concurrent)", "cases": real.len(), "not_executed": sk, "finished_at_s": *real_wall.lock().unwrap()}));
+        stage_report.push(json!({"stage": "SLOW stages: real proofs (own thread, concurrent)", "cases": real.len(), "not_executed": sk, "finished_at_s": *real_wall.lock().unwrap()}));
         if sk > 0 {
             capped = true;
             run.cap_hit(&format!("wall cap {cap_s}s: {sk} of {} real-proof cases not executed", real.len()));
